@@ -14,6 +14,8 @@ from __future__ import annotations
 
 import itertools
 
+import warnings
+
 import numpy as np
 
 from vf import lattice
@@ -178,6 +180,84 @@ def _config(arg):
     return res.as_dict()
 
 
+def _extra(arg):
+    """Other grid classes as domains (computed points, 2-D points, library 1-D rules), one object listed twice, and a
+    product larger than the default chunk length (6000) so that the default point-by-point route really splits."""
+    name, seed = arg
+    from grid.atomgrid import AtomGrid
+    from grid.basegrid import Grid, OneDGrid
+    from grid.cubic import UniformGrid
+    from grid.ngrid import MultiDomainGrid
+    from grid.onedgrid import GaussLegendre, Trapezoidal
+
+    res = WorkerResult(section="other-domains")
+    rng = np.random.default_rng([seed, 18])
+    with warnings.catch_warnings():
+        warnings.simplefilter("ignore")
+        atom = AtomGrid(OneDGrid(np.array([0.3, 1.1]), np.array([0.4, 0.7]), (0, np.inf)), degrees=[3], center=np.array([0.1, -0.2, 0.3]), rotate=3)
+        uni2 = UniformGrid(np.array([-0.5, 0.2]), np.array([[0.5, 0.1], [0.0, 0.4]]), np.array([2, 3]))
+        g1 = Grid(rng.uniform(-1, 1, 4), rng.uniform(0.1, 1, 4))
+        big1, big2 = Trapezoidal(90), GaussLegendre(80)
+    lists = {
+        "rule-x-rule": ([GaussLegendre(3), Trapezoidal(4)], (1, 1)),
+        "atom-x-rule": ([atom, GaussLegendre(2)], (3, 1)),
+        "rule-x-atom": ([GaussLegendre(2), atom], (1, 3)),
+        "uniform2d-x-grid": ([uni2, g1], (2, 1)),
+        "same-object-twice": ([g1, g1], (1, 1)),
+        "same-object-three-times": ([g1, g1, g1], (1, 1, 1)),
+        "above-default-chunk": ([big1, big2], (1, 1)),
+    }
+    grids, dims = lists[name]
+    case = {"route": "extra", "list": name}
+
+    def val(p, d):
+        p = np.asarray(p, dtype=float)
+        return p if d == 1 else p[..., 0] + 0.5 * p[..., -1]
+
+    def f(*args):
+        tot = 0.0
+        for k, (a, d) in enumerate(zip(args, dims)):
+            tot = tot + (k + 1) * val(a, d)
+        return np.exp(-0.3 * tot * tot) + 0.2 * tot
+
+    md = MultiDomainGrid(list(grids))
+    ref, scale = reference(grids, f)
+    total = int(np.prod([g.size for g in grids]))
+    res.count()
+    if int(md.size) != total:
+        res.violation("other-domains:size", f"{name}: size {md.size}, expected {total}", case)
+    routes = [("vectorised", dict(non_vectorized=False)), ("pointwise-default", dict(non_vectorized=True)),
+              ("pointwise-chunk=7", dict(non_vectorized=True, integration_chunk_size=7)),
+              ("pointwise-chunk=total", dict(non_vectorized=True, integration_chunk_size=total)),
+              ("pointwise-chunk=total-1", dict(non_vectorized=True, integration_chunk_size=max(1, total - 1)))]
+    for rname, kw in routes:
+        res.count()
+        try:
+            got = float(md.integrate(f, **kw))
+        except Exception as exc:
+            res.violation(f"other-domains:{rname.split('=')[0]}:raised:{type(exc).__name__}", f"{name}: integrate({rname}) raised "
+                          f"{type(exc).__name__}: {exc}", dict(case, route_name=rname))
+            continue
+        res.nontrivial()
+        if not abs(got - ref) <= 1e-12 * scale + 1e-15:
+            res.violation(f"other-domains:{rname.split('=')[0]}:differs-from-nested-sum", f"{name}: integrate({rname}) = {got!r}, nested "
+                          f"sum over the product set {ref!r}", dict(case, route_name=rname), got=got, expected=ref)
+    if total <= 200:
+        res.count()
+        pts, ws = list(md.points), [float(v) for v in md.weights]
+        ref_pts = list(itertools.product(*[list(g.points) for g in grids]))
+        ref_w = [float(np.prod(c)) for c in itertools.product(*[list(g.weights) for g in grids])]
+        if len(pts) != total or not all(all(np.array_equal(a, b) for a, b in zip(p, q)) for p, q in zip(pts, ref_pts)) \
+                or not np.allclose(ws, ref_w, rtol=1e-14, atol=0):
+            res.violation("other-domains:generators:wrong-product-set-or-order", f"{name}: enumerated points / weights are not the "
+                          f"product set in order", case)
+    return res.as_dict()
+
+
+EXTRAS = ("rule-x-rule", "atom-x-rule", "rule-x-atom", "uniform2d-x-grid", "same-object-twice", "same-object-three-times",
+          "above-default-chunk")
+
+
 def configs(thorough):
     out = []
     for nd in (1, 2, 3):
@@ -201,6 +281,8 @@ def run(ctx):
         if len(ctx.samples) > 8:
             res["samples"] = []
         ctx.merge(res)
+    for res in lattice.pmap(_extra, [(n, ctx.seed) for n in EXTRAS], ctx.workers):
+        ctx.merge(res)
     # constructor validation
     from grid.ngrid import MultiDomainGrid
 
@@ -220,4 +302,6 @@ def run(ctx):
 def replay(ctx, case):
     if case.get("route") == "validation":
         return run(ctx)
+    if case.get("route") == "extra":
+        return ctx.merge(_extra((case["list"], ctx.seed)))
     ctx.merge(_config((tuple(case["sizes"]), case["pattern"], case["repeated"], ctx.seed)))
